@@ -32,7 +32,7 @@ META = {
     ],
     'assumptions': ['A1', 'A2', 'A3', 'A5', 'A6', 'A7', 'sigma, lam, gamma > 0'],
     'not_decided': ['proj_simplex / proj_l1 / ProximalLInfty (sorting), nuclear norm (SVD), KL cross entropy (Lambert W), group (product-space) proximals - bounded functional-pool stand-in only -, '
-                    'combine_proximals / SeparableSum, proximal_composition; firm non-expansiveness and idempotence follow from optimality for convex f (Moreau 1965, trusted theorem)'],
+                    'proximal_composition (combine_proximals / SeparableSum are under contract: separable-sum/*); firm non-expansiveness and idempotence follow from optimality for convex f (Moreau 1965, trusted theorem)'],
 }
 
 
@@ -314,6 +314,8 @@ def units(tier, seed):
     us += [unit_calculus(k) for k in CALC]
     from contracts import grouplib
     us.extend(grouplib.units())
+    from contracts import grouplib as _gl
+    us.append(_gl.unit_separable_sum(2 if 'C07' != 'C08' else 3))
     us.append(unit_functional_pool_bounded())
     us.append(unit_canary())
     return us
